@@ -11,6 +11,7 @@ NORMAL = "str_case(self, str_strip_of(self, value))"
 def register(reg):
     register_virtual(reg)
     register_simple_fields(reg)
+    register_numbers(reg)
     reg.refine("fields.string_field:StringField._validate", "core:Field._validate",
                defs={"accepts_type": (["f", "r"], STR_ACCEPTS)},
                returns="str",
@@ -24,6 +25,28 @@ def register(reg):
                    "C05.rejected-only-if-a-constraint-fails": "not (typeis(value, 'str') and accepts_type(self, %s))" % NORMAL,
                    "C05.deterministic-and-pure": "heap_unchanged()",
                })
+
+
+def register_numbers(reg):
+    """NumberField._validate (IntField, FloatField, PortField ...): conversion to the number type, then the bounds"""
+    KIND = "ite(self.type_cls == int, typeis(%s, 'int') and not typeis(%s, 'bool'), typeis(%s, 'float'))"
+    BOUNDS = "(self.min is None or num_ge(%s, self.min)) and (self.max is None or num_le(%s, self.max))"
+    reg.refine("fields.number_field:NumberField._validate", "core:Field._validate",
+               defs={"accepts_type": (["f", "r"], ("ite(f.type_cls == int, typeis(r, 'int') and not typeis(r, 'bool'), typeis(r, 'float'))"
+                                                    " and (f.min is None or num_ge(r, f.min)) and (f.max is None or num_le(r, f.max))"))},
+               returns="int|float",
+               assumes={"A.number-type": "self.type_cls == int or self.type_cls == float"},
+               ensures={
+                   "C05.a-number-of-the-field's-type-is-kept": "implies(%s, result == value)" % (KIND % ("value", "value", "value")),
+                   "C05.only-text-and-numbers-are-converted-never-a-bool": "typeis(value, 'str|int|float') and not typeis(value, 'bool')",
+                   "C05.text-is-parsed": "implies(typeis(value, 'str') and self.type_cls == int, result == int_parse(value) and int_ok(value))",
+                   "C05.text-is-parsed-as-float": "implies(typeis(value, 'str') and self.type_cls == float, result == float_parse(value) and float_ok(value))",
+                   "C05.result-within-bounds": BOUNDS % ("result", "result"),
+                   "C05.deterministic-and-pure": "heap_unchanged()",
+               },
+               raises={"C05.rejection-is-a-value-error": "exc_is(ValueError)",
+                       "C05.a-number-of-the-field's-type-within-bounds-is-never-rejected": "not (%s and %s)" % (KIND % ("value", "value", "value"), BOUNDS % ("value", "value")),
+                       "C05.deterministic-and-pure": "heap_unchanged()"})
 
 
 def register_virtual(reg):
